@@ -92,6 +92,32 @@ func histBatch(rng *rand.Rand, kind string, prefix string) *model.Batch {
 		}
 		model.AddShapes(b, 1)
 		return b
+	case "ramp10", "ramp115", "ramp13", "ramp16", "ramp19":
+		// 80 documents of one field; the number of tokens per document grows with the
+		// ramp factor: output sizes between one and two times the previous build's
+		// (buffers sized from the previous build are just about large enough)
+		per := map[string]int{"ramp10": 20, "ramp115": 23, "ramp13": 26, "ramp16": 32, "ramp19": 38}[kind]
+		b := &model.Batch{}
+		for d := 0; d < 80; d++ {
+			f := model.FieldInst{Name: "ramp", Type: 't', Stored: true, TV: true, Len: per}
+			for k := 0; k < per; k++ {
+				t := fmt.Sprintf("t%02d", (d+k)%40)
+				f.Value = append(f.Value, t...)
+				found := false
+				for ti := range f.Toks {
+					if f.Toks[ti].Term == t {
+						f.Toks[ti].Freq++
+						f.Toks[ti].Locs = append(f.Toks[ti].Locs, model.Loc{Pos: uint64(k + 1), Start: uint64(4 * k), End: uint64(4*k + 3)})
+						found = true
+					}
+				}
+				if !found {
+					f.Toks = append(f.Toks, model.Tok{Term: t, Freq: 1, Locs: []model.Loc{{Pos: uint64(k + 1), Start: uint64(4 * k), End: uint64(4*k + 3)}}})
+				}
+			}
+			b.Docs = append(b.Docs, model.Doc{ID: fmt.Sprintf("%sr%03d", prefix, d), Fields: []model.FieldInst{f}})
+		}
+		return b
 	case "rejected":
 		b := model.Gen(rng, "small", o)
 		if len(b.Docs) > 0 {
@@ -107,6 +133,10 @@ func histBatch(rng *rand.Rand, kind string, prefix string) *model.Batch {
 // drawHistory draws 8..14 kinds; adversarial neighbours are forced by
 // construction: every kind follows every other kind over the cases.
 func drawHistory(rng *rand.Rand, i int) []string {
+	if i%20 == 7 {
+		// same document count, growing documents, each followed by a one-document batch
+		return []string{"ramp10", "ramp10", "ramp13", "one", "ramp10", "ramp10", "ramp16", "one", "ramp10", "ramp10", "ramp19", "one", "ramp10", "ramp10", "ramp115", "one", "small"}
+	}
 	n := 8 + rng.Intn(7)
 	h := make([]string, 0, n)
 	// a forced ordered pair derived from the case index, then random kinds
@@ -130,6 +160,24 @@ func runHistory(c *Ctx, r *oracle.Report, id string, rng *rand.Rand, kinds []str
 			compareWithFreshBuilder(r, id, kinds, batches, images, written)
 		}
 	}()
+	// the segment of the previous build stays alive during the next build and must
+	// not change under it: its image is taken again afterwards
+	var held segment.Segment
+	var heldImg []byte
+	var heldTag string
+	recheckHeld := func(after string) {
+		if held == nil {
+			return
+		}
+		var buf bytes.Buffer
+		if _, err := writeTo(held, &buf); err != nil || !bytes.Equal(buf.Bytes(), heldImg) {
+			r.Fail("earlier-segment-changed", "%s: its image differs after %s was built (err %v, %d vs %d bytes)", heldTag, after, err, buf.Len(), len(heldImg))
+		}
+		r.Inc("earlier_segments_rechecked_after_a_later_build", 1)
+		held.Close()
+		held = nil
+	}
+	defer recheckHeld("the end of the history")
 	for k, b := range batches {
 		tag := fmt.Sprintf("%s/build%d(%s after %s)", id, k, kinds[k], prev)
 		var newBefore int64
@@ -152,7 +200,21 @@ func runHistory(c *Ctx, r *oracle.Report, id string, rng *rand.Rand, kinds []str
 				r.Fail("build-err", "%s: New: %v", tag, err)
 				return
 			}
-			defer seg.Close()
+			recheckHeld(tag)
+			keep := false
+			defer func() {
+				if !keep {
+					seg.Close()
+				}
+			}()
+			if countPool && !VecBuild {
+				// (in the vectors flavour a live segment keeps native indexes open, which the
+				// engine monitor of the per-build checks would report)
+				var buf bytes.Buffer
+				if _, err := writeTo(seg, &buf); err == nil {
+					defer func() { held, heldImg, heldTag, keep = seg, buf.Bytes(), tag, true }()
+				}
+			}
 			if countPool && byteComparable(b) {
 				var buf bytes.Buffer
 				if _, err := writeTo(seg, &buf); err == nil {
